@@ -6,6 +6,7 @@ import (
 	"log/slog"
 	"sort"
 	"sync"
+	"sync/atomic"
 
 	"github.com/deckhouse/deckhouse/pkg/log"
 
@@ -39,7 +40,7 @@ type monitor struct {
 	VaryingInformers varyingInformers
 
 	eventCb       func(kemtypes.KubeEvent)
-	eventsEnabled bool
+	eventsEnabled atomic.Bool
 	// Index of namespaces statically defined in monitor configuration
 	staticNamespaces sync.Map
 
@@ -218,7 +219,7 @@ func (m *monitor) CreateInformers() error {
 
 				for _, informer := range varyingInformers {
 					informer.withContext(ctx)
-					if m.eventsEnabled {
+					if m.eventsEnabled.Load() {
 						informer.enableKubeEventCb()
 					}
 					informer.start()
@@ -295,6 +296,11 @@ func (m *monitor) Snapshot() []kemtypes.ObjectAndFilterResult {
 // EnableKubeEventCb allows execution of event callback for all informers.
 // Also executes eventCb for events accumulated during "Synchronization" phase.
 func (m *monitor) EnableKubeEventCb() {
+	// Enable events for future VaryingInformers first: informers for a namespace that
+	// appears while the informers below are being unlocked are either seen by the
+	// sweep or see the flag.
+	m.eventsEnabled.Store(true)
+
 	for _, informer := range m.ResourceInformers {
 		informer.enableKubeEventCb()
 	}
@@ -304,8 +310,6 @@ func (m *monitor) EnableKubeEventCb() {
 			informer.enableKubeEventCb()
 		}
 	})
-	// Enable events for future VaryingInformers.
-	m.eventsEnabled = true
 }
 
 // CreateInformersForNamespace creates informers bounded to the namespace. If no matchName is specified,
